@@ -415,6 +415,110 @@ def r9_inherited_bindings_are_copies(ctx, rep):
     rep.ob("shallow copies of type-bound procedures inspected", True, f"{n} (copy, in-place-mutated list attribute) pair(s)",
            "ford/sourceform.py", nontrivial=False)
 
+# ------------------------------------------------------------------ scope tables are read by key
+def _name_search_helpers(py) -> set:
+    """functions that look an entity up by its own name: they iterate their first parameter and compare `<item>.name` with
+    another parameter (`_find_in_list`)"""
+    out = set()
+    for _m, fn in py.all_functions():
+        ps = [a.arg for a in fn.args.args]
+        if len(ps) < 2:
+            continue
+        for lp in ast.walk(fn):
+            if isinstance(lp, (ast.For, ast.comprehension)) and isinstance(lp.iter, ast.Name) and lp.iter.id == ps[0] and \
+                    isinstance(lp.target, ast.Name):
+                it = lp.target.id
+                for c in ast.walk(fn):
+                    if isinstance(c, ast.Compare) and any(
+                            isinstance(a, ast.Attribute) and a.attr == "name" and isinstance(a.value, ast.Name) and a.value.id == it
+                            for a in ast.walk(c)) and any(isinstance(n, ast.Name) and n.id in ps[1:] for n in ast.walk(c)):
+                        out.add(fn.name)
+    return out
+
+
+def _values_of_scope_table(e: ast.AST) -> Optional[str]:
+    if isinstance(e, ast.Call) and isinstance(e.func, ast.Attribute) and e.func.attr == "values" and \
+            isinstance(e.func.value, ast.Attribute) and (e.func.value.attr in TABLES or e.func.value.attr.startswith("pub_")):
+        return ast.unparse(e.func.value)
+    return None
+
+
+def _by_name_table_searches(fn: ast.AST, helpers: set):
+    """(node, table) for every search of a scope table by the entities' own names inside fn"""
+    out = []
+    for c in ast.walk(fn):
+        if isinstance(c, ast.Call) and call_name(c).split(".")[-1] in helpers and c.args:
+            for x in [c.args[0]] + astq.expand_locals(c.args[0], fn):
+                t = _values_of_scope_table(x)
+                if t:
+                    out.append((c, t))
+                    break
+        if isinstance(c, (ast.GeneratorExp, ast.ListComp)):
+            for g in c.generators:
+                t = _values_of_scope_table(g.iter)
+                if t and isinstance(g.target, ast.Name) and any(
+                        isinstance(k, ast.Compare) and any(isinstance(a, ast.Attribute) and a.attr == "name" and isinstance(a.value, ast.Name)
+                                                           and a.value.id == g.target.id for a in ast.walk(k)) for i in g.ifs for k in ast.walk(i)):
+                    out.append((c, t))
+    return out
+
+
+_BY_NAME_EXAMPLE = """
+def find(collection, name):
+    for item in collection:
+        if item.name.lower() == name.lower():
+            return item
+def bad(self, n):
+    known = self.parent.all_types.values()
+    return find(known, n)
+def bad2(self, n):
+    return next((t for t in self.parent.all_types.values() if t.name.lower() == n), None)
+def good(self, n):
+    return self.parent.all_types.get(n)
+"""
+
+
+def r10_tables_read_by_key(ctx, rep):
+    """The scope tables (`all_procs`, `all_types`, `all_vars`, `all_absinterfaces`, `pub_*`) are keyed by the *local* name under
+    which an entity is accessible in that scope - which differs from the entity's own name exactly when it was imported with
+    `local => remote`.  Resolving a name by searching the table's values for an entity *called* like that finds the wrong
+    entity (or none) for renamed imports, and can find an entity that is not accessible under that name at all.
+    (shared with C06.R6)"""
+    py = ctx.py
+
+    class _P:
+        def __init__(self, tree):
+            self.fs = [n for n in tree.body if isinstance(n, ast.FunctionDef)]
+        def all_functions(self):
+            return [("ex", f) for f in self.fs]
+    ex = _P(ast.parse(_BY_NAME_EXAMPLE))
+    helpers = _name_search_helpers(ex)
+    got = {f.name: len(_by_name_table_searches(f, helpers)) for f in ex.fs}
+    if helpers != {"find"} or got != {"find": 0, "bad": 1, "bad2": 1, "good": 0}:
+        raise AnalysisError(f"tables_read_by_key: the matcher fails on its own example ({helpers}, {got})")
+    helpers = _name_search_helpers(py)
+    n = 0
+    reads = 0
+    for mod, fn in py.all_functions():
+        if mod not in ("sourceform", "fortran_project"):
+            continue
+        for c, t in _by_name_table_searches(fn, helpers):
+            n += 1
+            rep.ob(f"{py.qualname(fn)}: `{t}` is searched by entity name", False,
+                   f"`{ast.unparse(c)[:70]}` looks through the *values* of `{t}` for an entity whose own name matches; the table is "
+                   f"keyed by the local name, so `use m, only: vec => t` followed by `type(vec)` is no longer resolved and "
+                   f"`type(t)` finds an entity that is not visible under that name", py.nloc(c))
+        for x in ast.walk(fn):
+            if (isinstance(x, ast.Subscript) and isinstance(x.value, ast.Attribute) and x.value.attr in TABLES) or \
+                    (isinstance(x, ast.Call) and isinstance(x.func, ast.Attribute) and x.func.attr == "get"
+                     and isinstance(x.func.value, ast.Attribute) and x.func.value.attr in TABLES):
+                reads += 1
+    rep.ob("scope tables are read by key", True, f"{reads} keyed reads of {', '.join(TABLES)}; name-search helpers: {sorted(helpers)}",
+           "ford/sourceform.py")
+    if reads < 8 or not helpers:
+        raise AnalysisError(f"only {reads} keyed reads of the scope tables / helpers {sorted(helpers)} found")
+
+
 RULES = [
     RuleSpec("C07.R6", r6_block_scope, "block-local declarations stay out of the enclosing scope", floor=4),
     RuleSpec("C07.R7", r7_use_is_complete_when_read, "importers are correlated after their exporters (shared with C06.R3)", floor=5),
@@ -425,4 +529,5 @@ RULES = [
     RuleSpec("C07.R5", r5_type_extension_order, "type extension order", floor=3),
     RuleSpec("C07.R9", r9_inherited_bindings_are_copies, "inherited generic bindings do not share their binding list with the base type", floor=1),
     RuleSpec("C07.R8", r8_tables_not_shrunk, "scope tables are only extended", floor=1),
+    RuleSpec("C07.R10", r10_tables_read_by_key, "scope tables are read by key, never searched by entity name", floor=1),
 ]
